@@ -1,5 +1,6 @@
 import Copia.Driver.C01
 import Copia.Driver.C02
+import Copia.Driver.C04
 import Copia.Driver.C17
 import Copia.Driver.C18
 import Copia.Driver.C19
@@ -16,6 +17,7 @@ def dispatch (line : String) : String :=
     match toks with
     | "sig" :: _ | "delta" :: _ | "patch" :: _ => C01.handle toks
     | "bi" :: _ | "biplan" :: _ => C02.handle toks
+    | "ow" :: _ => C04.handle toks
     | "ck" :: _ => C17.handle toks
     | "glob" :: _ | "excl" :: _ | "plan" :: _ | "nt" :: _ | "parse" :: _ => C19.handle toks
     | "hdrenc" :: _ | "hdrdec" :: _ | "msgdec" :: _ | "msgenc" :: _ | "sigdec" :: _ | "sigenc" :: _
